@@ -796,8 +796,50 @@ def _iter_unused_names(
                         )
 
 
+def _root_name(node: ast.AST) -> str | None:
+    """The x of x.attr, x[key], x.attr[key].attr, *x, ..."""
+    while isinstance(node, (ast.Attribute, ast.Subscript, ast.Starred)):
+        node = node.value
+    return node.id if isinstance(node, ast.Name) else None
+
+
+def _possibly_mutated_names(scope: ast.AST, harmless_functions: Collection[str]) -> Collection[str]:
+    """Names of objects that the code in scope may change without binding the name again: by
+    storing to or deleting an attribute or item, by an augmented assignment, by calling a method,
+    or by passing the object to a function that is not one of harmless_functions."""
+    mutated = set()
+    store_template = (
+        ast.Attribute(ctx=(ast.Store, ast.Del)),
+        ast.Subscript(ctx=(ast.Store, ast.Del)),
+    )
+    for node in core.walk(scope, store_template):
+        mutated.add(_root_name(node))
+    for node in core.walk(scope, ast.AugAssign):
+        mutated.add(_root_name(node.target))
+    for node in core.walk(scope, ast.Call):
+        if isinstance(node.func, ast.Name) and node.func.id in harmless_functions:
+            continue
+        mutated.add(_root_name(node.func))
+        for arg in itertools.chain(node.args, (keyword.value for keyword in node.keywords)):
+            mutated.update(name.id for name in core.walk(arg, ast.Name))
+
+    return mutated - {None}
+
+
 def move_before_loop(source: str) -> str:
     root = core.parse(source)
+
+    maybe_rebound_by_calls = {
+        name for node in core.walk(root, (ast.Global, ast.Nonlocal)) for name in node.names
+    }
+    name_targets = (ast.Name, ast.Tuple, ast.List, ast.Starred, ast.Store)
+    # Builtins that do not change their arguments, unless the file gives the name another meaning
+    harmless_functions = (constants.PURE_BUILTIN_FUNCTIONS | {"print", "isinstance", "type"}) - {
+        name
+        for node, name in _iter_identifier_mentions(root)
+        if not isinstance(node, (ast.Attribute, ast.keyword))
+        and not (isinstance(node, ast.Name) and isinstance(node.ctx, ast.Load))
+    }
 
     for scope in core.walk(root, (ast.For, ast.While)):
         header_scope = [scope.target, scope.iter] if isinstance(scope, ast.For) else [scope.test]
@@ -806,6 +848,23 @@ def move_before_loop(source: str) -> str:
                 continue
             if core.has_side_effect(node.value):
                 continue
+
+            # x[key] = value and x.attr = value change x. That has to happen in every iteration.
+            targets = node.targets if isinstance(node, ast.Assign) else [node.target]
+            if not all(isinstance(child, name_targets) for t in targets for child in ast.walk(t)):
+                continue
+
+            # The value is not the same in every iteration if it is computed from variables that
+            # a called function may assign, or from objects that the loop changes (y = x is still
+            # the same object then).
+            required_names = {name.id for name in core.walk(node, ast.Name(ctx=ast.Load))}
+            if required_names & maybe_rebound_by_calls:
+                continue
+            if not isinstance(node.value, ast.Name) and required_names & _possibly_mutated_names(
+                scope, harmless_functions
+            ):
+                continue
+
             if core.has_ignore_comment(source, core.get_charnos(node, source)):
                 continue
 
